@@ -26,6 +26,7 @@ def handle (line : String) : String :=
     | "c16.driver" => toString (Oracle.Driver.handle payload)
     | "c01.prog" => toString (Oracle.FSem.handle payload)
     | "sem.prog" => toString (Oracle.SemStream.handle payload)
+    | "sem.lower" => toString (Oracle.SemStream.handleLower payload)
     | "c03.union" => toString (Oracle.Decl.handle payload)
     | "c18.run" => toString (Oracle.SampleMd.handle payload)
     | "c15.type" => toString (Oracle.TypeExpr.handle payload)
